@@ -627,4 +627,55 @@ pub proof fn lemma_sip_or_byte(msg: Seq<u8>, b: u64, i: usize, x: u8)
     assert(u64_bytes(nb) =~= sip_partial_block(msg, i as int));
 }
 
+/// initial state from the two loaded key words (the code computes `constant ^ key word`)
+pub proof fn lemma_sip_init(key: Seq<u8>, k0: u64, k1: u64)
+    requires
+        key.len() == 16,
+        k0 as nat == le_nat(key.subrange(0, 8)),
+        k1 as nat == le_nat(key.subrange(8, 16)),
+    ensures
+        st4_is(
+            sip_init(key),
+            0x736f6d6570736575u64 ^ k0,
+            0x646f72616e646f6du64 ^ k1,
+            0x6c7967656e657261u64 ^ k0,
+            0x7465646279746573u64 ^ k1,
+        ),
+{
+    assert(0x736f6d6570736575u64 ^ k0 == k0 ^ 0x736f6d6570736575u64) by (bit_vector);
+    assert(0x646f72616e646f6du64 ^ k1 == k1 ^ 0x646f72616e646f6du64) by (bit_vector);
+    assert(0x6c7967656e657261u64 ^ k0 == k0 ^ 0x6c7967656e657261u64) by (bit_vector);
+    assert(0x7465646279746573u64 ^ k1 == k1 ^ 0x7465646279746573u64) by (bit_vector);
+}
+
+/// compression of one word, on the four state words
+pub proof fn lemma_sip_compress(s: Seq<u64>, m: u64)
+    requires
+        s.len() == 4,
+    ensures
+        ({
+            let a = sipround_v(s[0], s[1], s[2], s[3] ^ m);
+            let b = sipround_v(a.0, a.1, a.2, a.3);
+            st4_is(sip_compress(s, m), b.0 ^ m, b.1, b.2, b.3)
+        }),
+{
+    lemma_siprounds_2(s.update(3, s[3] ^ m));
+}
+
+/// finalisation (v2 ^= 0xff, d = 4 SipRounds), on the four state words
+pub proof fn lemma_sip_finalize(s: Seq<u64>)
+    requires
+        s.len() == 4,
+    ensures
+        ({
+            let a = sipround_v(s[0], s[1], s[2] ^ 0xffu64, s[3]);
+            let b = sipround_v(a.0, a.1, a.2, a.3);
+            let c = sipround_v(b.0, b.1, b.2, b.3);
+            let d = sipround_v(c.0, c.1, c.2, c.3);
+            st4_is(siprounds(s.update(2, s[2] ^ 0xffu64), 4), d.0, d.1, d.2, d.3)
+        }),
+{
+    lemma_siprounds_4(s.update(2, s[2] ^ 0xffu64));
+}
+
 } // verus!
